@@ -299,7 +299,7 @@ M("C15", "eq2xyz-rad-stomp-alias", [(CO, "    theta = np.array(ra, ndmin=1, copy
   "radian inputs are not copied: stomp=True shifts the caller's ra by the node")
 M("C15", "binner-sorts-weights-inplace", [(SU, "            self.weights = np.atleast_1d(weights).astype(np.float64)\n", "            self.weights = np.atleast_1d(weights).astype(np.float64, copy=False)\n            if self.weights.size > 100:\n                self.weights /= self.weights.max()\n")],
   "more than 100 native float64 weights are normalised in the caller's array")
-M("C15", "text-write-swaps-caller-again", [(RU, "            if _needs_byteswap(dataview):\n                dataview = dataview.copy()\n                to_native_inplace(dataview)\n", "            to_native_inplace(dataview)\n")], "the original defect D24")
+M("C15", "text-write-swaps-caller-again", [(RU, "            if native_dtype != dataview.dtype:\n                dataview = dataview.astype(native_dtype)\n", "            if native_dtype != dataview.dtype:\n                to_native_inplace(dataview)\n")], "the original defect D24: a non-native table is swapped in the caller's buffer before a text write")
 M("C15", "htm-match-radius-inplace", [(HT, "        radius = np.atleast_1d(radius).astype('f8')\n\n        if ra1.size != dec1.size or ra2.size != ra2.size:", "        radius = np.atleast_1d(np.asarray(radius, dtype='f8'))\n        radius[radius < 0] = 0.0\n\n        if ra1.size != dec1.size or ra2.size != ra2.size:")],
   "no element is ever written for the non-negative radii of the workload (a read-only radius array makes the empty masked assignment raise, which is reported as a side observation only)", control=True)
 M("C15", "htm-lookup-wraps-ra-inplace", [(HT, "        ra = np.atleast_1d(ra).astype('f8')\n        dec = np.atleast_1d(dec).astype('f8')\n\n        if ra.size != dec.size:\n            raise ValueError(\"ra and dec must be the same size\")",
